@@ -5,8 +5,10 @@ package main
 import (
 	"bytes"
 	"crypto/sha256"
+	"encoding/json"
 	"fmt"
 	"io"
+	"os"
 	"runtime"
 	"sort"
 	"sync"
@@ -236,12 +238,31 @@ func realisations(total int, tier string, usesOther bool) []real {
 	return rs
 }
 
-func main() {
-	f := mbt.ParseFlags()
-	behs, err := mbt.ReadBehaviours(f.In)
+func readLines(path string) [][]byte {
+	bz, err := os.ReadFile(path)
 	if err != nil {
 		mbt.Die("%v", err)
 	}
+	var out [][]byte
+	for _, l := range bytes.Split(bz, []byte{'\n'}) {
+		if len(l) > 0 {
+			out = append(out, l)
+		}
+	}
+	return out
+}
+
+func decodeBeh(line []byte) []mbt.Step {
+	var steps []mbt.Step
+	if err := json.Unmarshal(line, &steps); err != nil {
+		mbt.Die("bad behaviour line: %v", err)
+	}
+	return steps
+}
+
+func main() {
+	f := mbt.ParseFlags()
+	lines := readLines(f.In) // decoded per worker
 	var only *real
 	if f.Extra != "" {
 		var r real
@@ -256,8 +277,8 @@ func main() {
 		wg.Add(1)
 		go func(w int) {
 			defer wg.Done()
-			for i := w; i < len(behs); i += nw {
-				beh := behs[i]
+			for i := w; i < len(lines); i += nw {
+				beh := decodeBeh(lines[i])
 				if len(beh) == 0 || beh[0].Act() != "Init" {
 					mbt.Die("behaviour must start with Init")
 				}
@@ -294,10 +315,10 @@ func main() {
 	for _, k := range keys {
 		mbt.Mismatch(k, best[k].what, best[k].c)
 	}
-	for i := 0; i < len(behs) && i < 2; i++ {
-		mbt.Sample(behs[len(behs)-1-i])
+	for i := 0; i < len(lines) && i < 2; i++ {
+		mbt.Sample(json.RawMessage(lines[len(lines)-1-i]))
 	}
-	sm := map[string]any{"behaviours": len(behs), "replays": replays, "steps": steps, "complete_sets_read_back": completes}
+	sm := map[string]any{"behaviours": len(lines), "replays": replays, "steps": steps, "complete_sets_read_back": completes}
 	for k, v := range hits {
 		sm["hits "+k] = v
 	}
